@@ -1,7 +1,9 @@
+//! replayer scenario <file>     run a stack program over the real estimators (see scenario.rs)
 //! replayer harness <crate-module::harness> <values.json>
 //!   runs the harness body natively on the concrete byte vectors and prints one JSON line:
 //!   {"violated":bool,"roles":[..],"panic":str|null,"assume_failed":[..],"underflow":bool,"covered":[..]}
 use std::panic;
+mod scenario;
 
 fn parse_vals(s: &str) -> Vec<Vec<u8>> {
     // minimal parser for [[1,2,3],[4],...]
@@ -61,6 +63,10 @@ fn list(v: &[&'static str]) -> String {
 
 fn main() {
     let args: Vec<String> = std::env::args().collect();
+    if args.len() == 3 && args[1] == "scenario" {
+        scenario::run(&args[2]);
+        return;
+    }
     if args.len() < 4 || args[1] != "harness" {
         eprintln!("usage: replayer harness <module::name> <values.json>");
         std::process::exit(3);
